@@ -8,6 +8,7 @@ import (
 	"net"
 	"os"
 	"sync"
+	"sync/atomic"
 	"time"
 
 	"verif/harness/ref"
@@ -35,62 +36,61 @@ type Call struct {
 	At  time.Time
 }
 
+// Conn's two directions share no lock (rmu guards the server->client side, wmu the
+// client->server side, the closed flag and sequence counter are atomics), so that
+// a race detector run is not blinded by happens-before edges a real socket would
+// not create. The only cross-direction edge is causal: a client write is parsed
+// by the reactive server, which may then queue a response.
 type Conn struct {
-	mu   sync.Mutex
+	rmu  sync.Mutex
 	wake chan struct{}
 
-	// server -> client
+	// server -> client (rmu)
 	rq        [][]byte // queued segments
 	rerr      error    // delivered once the queue is empty
 	rdeadline time.Time
 	delivered int // bytes handed to the client so far
+	timeouts  int
+	cut       bool
 
-	// client -> server
+	// client -> server (wmu)
+	wmu        sync.Mutex
 	Writes     []WriteRec
 	written    int
 	writeErrAt int // a write that would pass this total fails (short write + error); -1 = never
 	wdeadline  time.Time
 
-	closed     bool
+	closed     atomic.Bool
+	seq        atomic.Int64
+	cmu        sync.Mutex // Calls, CloseCalls
 	CloseCalls int
 	Calls      []Call
 	Local      Addr
 
 	Sched  *Sched  // optional gates
 	Server *Server // optional reactive server
-
-	// StallReads makes Read block even when data is queued (used by faults).
-	readsAfterClose int
-	timeouts        int
-	cut             bool
-	seq             int
-}
-
-// ReadTimeouts returns how many reads ended with a deadline expiry.
-func (c *Conn) ReadTimeouts() int {
-	c.mu.Lock()
-	defer c.mu.Unlock()
-	return c.timeouts
 }
 
 func NewConn() *Conn {
 	return &Conn{wake: make(chan struct{}), writeErrAt: -1, Local: "10.1.2.3:45678"}
 }
 
+// signal wakes blocked readers; rmu must be held.
 func (c *Conn) signal() {
 	close(c.wake)
 	c.wake = make(chan struct{})
 }
 
 func (c *Conn) note(op string) {
-	c.seq++
-	c.Calls = append(c.Calls, Call{Seq: c.seq, Op: op, At: time.Now()})
+	c.cmu.Lock()
+	c.Calls = append(c.Calls, Call{Seq: int(c.seq.Add(1)), Op: op, At: time.Now()})
+	c.cmu.Unlock()
 }
 
 // Deliver queues bytes from the server, in the given segments (nil = one).
 func (c *Conn) Deliver(b []byte, segs []int) {
-	c.mu.Lock()
-	defer c.mu.Unlock()
+	c.rmu.Lock()
+	defer c.rmu.Unlock()
 	if c.cut {
 		return
 	}
@@ -113,27 +113,27 @@ func (c *Conn) Deliver(b []byte, segs []int) {
 
 // FailReads makes reads return err once queued data is consumed (io.EOF = orderly close).
 func (c *Conn) FailReads(err error) {
-	c.mu.Lock()
+	c.rmu.Lock()
 	c.rerr = err
 	c.signal()
-	c.mu.Unlock()
+	c.rmu.Unlock()
 }
 
 // CutReads drops everything queued and makes reads fail with err from now on.
 func (c *Conn) CutReads(err error) {
-	c.mu.Lock()
+	c.rmu.Lock()
 	c.rq = nil
 	c.rerr = err
 	c.cut = true
 	c.signal()
-	c.mu.Unlock()
+	c.rmu.Unlock()
 }
 
 // FailWritesAfter makes the write that would exceed total n bytes fail.
 func (c *Conn) FailWritesAfter(n int) {
-	c.mu.Lock()
+	c.wmu.Lock()
 	c.writeErrAt = n
-	c.mu.Unlock()
+	c.wmu.Unlock()
 }
 
 func (c *Conn) gate(name string) {
@@ -152,16 +152,14 @@ func (timeoutErr) Is(t error) bool { return t == os.ErrDeadlineExceeded }
 func (c *Conn) Read(p []byte) (int, error) {
 	c.gate("read")
 	for {
-		c.mu.Lock()
-		if c.closed {
-			c.readsAfterClose++
+		if c.closed.Load() {
 			c.note("read-after-close")
-			c.mu.Unlock()
 			return 0, &net.OpError{Op: "read", Net: "sim", Err: net.ErrClosed}
 		}
+		c.rmu.Lock()
 		if len(c.rq) > 0 {
 			if len(p) == 0 {
-				c.mu.Unlock()
+				c.rmu.Unlock()
 				return 0, nil
 			}
 			seg := c.rq[0]
@@ -172,26 +170,26 @@ func (c *Conn) Read(p []byte) (int, error) {
 				c.rq[0] = seg[n:]
 			}
 			c.delivered += n
-			c.mu.Unlock()
+			c.rmu.Unlock()
 			return n, nil
 		}
 		if c.rerr != nil {
 			err := c.rerr
-			c.mu.Unlock()
+			c.rmu.Unlock()
 			return 0, err
 		}
 		dl := c.rdeadline
 		wake := c.wake
-		c.mu.Unlock()
+		c.rmu.Unlock()
 		if dl.IsZero() {
 			<-wake
 			continue
 		}
 		d := time.Until(dl)
 		if d <= 0 {
-			c.mu.Lock()
+			c.rmu.Lock()
 			c.timeouts++
-			c.mu.Unlock()
+			c.rmu.Unlock()
 			return 0, &net.OpError{Op: "read", Net: "sim", Err: timeoutErr{}}
 		}
 		t := time.NewTimer(d)
@@ -205,22 +203,21 @@ func (c *Conn) Read(p []byte) (int, error) {
 
 func (c *Conn) Write(p []byte) (int, error) {
 	c.gate("write")
-	c.mu.Lock()
-	c.seq++
-	rec := WriteRec{Seq: c.seq, Data: append([]byte(nil), p...), Attempt: append([]byte(nil), p...), At: time.Now()}
-	if c.closed {
+	c.wmu.Lock()
+	rec := WriteRec{Seq: int(c.seq.Add(1)), Data: append([]byte(nil), p...), Attempt: append([]byte(nil), p...), At: time.Now()}
+	if c.closed.Load() {
 		rec.AfterStop = true
 		rec.Err = net.ErrClosed
 		c.Writes = append(c.Writes, rec)
+		c.wmu.Unlock()
 		c.note("write-after-close")
-		c.mu.Unlock()
 		return 0, &net.OpError{Op: "write", Net: "sim", Err: net.ErrClosed}
 	}
 	if !c.wdeadline.IsZero() && !time.Now().Before(c.wdeadline) {
 		rec.Data = nil
 		rec.Err = timeoutErr{}
 		c.Writes = append(c.Writes, rec)
-		c.mu.Unlock()
+		c.wmu.Unlock()
 		return 0, &net.OpError{Op: "write", Net: "sim", Err: timeoutErr{}}
 	}
 	n := len(p)
@@ -237,7 +234,7 @@ func (c *Conn) Write(p []byte) (int, error) {
 	c.written += n
 	c.Writes = append(c.Writes, rec)
 	srv := c.Server
-	c.mu.Unlock()
+	c.wmu.Unlock()
 	if srv != nil && n > 0 {
 		srv.onClientBytes(rec.Data[:n])
 	}
@@ -247,15 +244,16 @@ func (c *Conn) Write(p []byte) (int, error) {
 func (c *Conn) Close() error {
 	// No gate here: ch.Client.Close calls conn.Close while holding its mutex, and a goroutine
 	// waiting for that mutex is not durably blocked, so synctest.Wait would never return.
-	c.mu.Lock()
-	defer c.mu.Unlock()
+	c.cmu.Lock()
 	c.CloseCalls++
-	c.note("close")
-	if c.closed {
+	c.Calls = append(c.Calls, Call{Seq: int(c.seq.Add(1)), Op: "close", At: time.Now()})
+	c.cmu.Unlock()
+	if c.closed.Swap(true) {
 		return &net.OpError{Op: "close", Net: "sim", Err: net.ErrClosed}
 	}
-	c.closed = true
+	c.rmu.Lock()
 	c.signal()
+	c.rmu.Unlock()
 	return nil
 }
 
@@ -272,50 +270,45 @@ func (c *Conn) SetDeadline(t time.Time) error {
 
 func (c *Conn) SetReadDeadline(t time.Time) error {
 	c.gate("setreaddeadline")
-	c.mu.Lock()
-	defer c.mu.Unlock()
-	if c.closed {
+	if c.closed.Load() {
 		c.note("setreaddeadline-after-close")
 		return &net.OpError{Op: "set", Net: "sim", Err: net.ErrClosed}
 	}
+	c.rmu.Lock()
 	c.rdeadline = t
 	c.signal()
+	c.rmu.Unlock()
 	return nil
 }
 
 func (c *Conn) SetWriteDeadline(t time.Time) error {
 	c.gate("setwritedeadline")
-	c.mu.Lock()
-	defer c.mu.Unlock()
-	if c.closed {
+	if c.closed.Load() {
 		c.note("setwritedeadline-after-close")
 		return &net.OpError{Op: "set", Net: "sim", Err: net.ErrClosed}
 	}
+	c.wmu.Lock()
 	c.wdeadline = t
+	c.wmu.Unlock()
 	return nil
 }
 
 // Closed reports whether Close was called.
-func (c *Conn) Closed() bool {
-	c.mu.Lock()
-	defer c.mu.Unlock()
-	return c.closed
-}
+func (c *Conn) Closed() bool { return c.closed.Load() }
 
 // ForceClose closes from the harness side (not counted as a client call).
 func (c *Conn) ForceClose() {
-	c.mu.Lock()
-	if !c.closed {
-		c.closed = true
+	if !c.closed.Swap(true) {
+		c.rmu.Lock()
 		c.signal()
+		c.rmu.Unlock()
 	}
-	c.mu.Unlock()
 }
 
 // WrittenBytes returns everything the client wrote successfully, concatenated.
 func (c *Conn) WrittenBytes() []byte {
-	c.mu.Lock()
-	defer c.mu.Unlock()
+	c.wmu.Lock()
+	defer c.wmu.Unlock()
 	var out []byte
 	for _, w := range c.Writes {
 		if !w.AfterStop {
@@ -327,22 +320,32 @@ func (c *Conn) WrittenBytes() []byte {
 
 // NumWrites returns the number of Write calls so far.
 func (c *Conn) NumWrites() int {
-	c.mu.Lock()
-	defer c.mu.Unlock()
+	c.wmu.Lock()
+	defer c.wmu.Unlock()
 	return len(c.Writes)
 }
 
 // Snapshot returns copies of the recorded writes and calls.
 func (c *Conn) Snapshot() ([]WriteRec, []Call) {
-	c.mu.Lock()
-	defer c.mu.Unlock()
-	return append([]WriteRec(nil), c.Writes...), append([]Call(nil), c.Calls...)
+	c.wmu.Lock()
+	w := append([]WriteRec(nil), c.Writes...)
+	c.wmu.Unlock()
+	c.cmu.Lock()
+	defer c.cmu.Unlock()
+	return w, append([]Call(nil), c.Calls...)
+}
+
+// NumCloseCalls returns how often Close was called by the client.
+func (c *Conn) NumCloseCalls() int {
+	c.cmu.Lock()
+	defer c.cmu.Unlock()
+	return c.CloseCalls
 }
 
 // Unread returns server bytes queued but not yet read by the client.
 func (c *Conn) Unread() int {
-	c.mu.Lock()
-	defer c.mu.Unlock()
+	c.rmu.Lock()
+	defer c.rmu.Unlock()
 	n := 0
 	for _, s := range c.rq {
 		n += len(s)
@@ -352,9 +355,16 @@ func (c *Conn) Unread() int {
 
 // DeliveredBytes returns how many server bytes the client has read.
 func (c *Conn) DeliveredBytes() int {
-	c.mu.Lock()
-	defer c.mu.Unlock()
+	c.rmu.Lock()
+	defer c.rmu.Unlock()
 	return c.delivered
+}
+
+// ReadTimeouts returns how many reads ended with a deadline expiry.
+func (c *Conn) ReadTimeouts() int {
+	c.rmu.Lock()
+	defer c.rmu.Unlock()
+	return c.timeouts
 }
 
 var _ net.Conn = (*Conn)(nil)
